@@ -561,7 +561,7 @@ fn conc_part(rep: &mut Report, viol: &mut Viol, thorough: bool) {
                 viol.add(
                     rep,
                     &format!("built-in {} kills the host process ({how}) when another thread uses the same list: `{}`", c.builtin, c.class),
-                    &format!("{verb} {} contention {}", c.builtin, c.class),
+                    &format!("{verb} {} under-contention", c.builtin),
                     input,
                 );
             }
